@@ -12,4 +12,4 @@ s2 = eval(expr)
 assert s2 != s, "mutation did not apply"
 open(p, 'w').write(s2)
 PY
-cd /verif && PYVC_REPO=/tmp/mut ./check "$1" 2>&1 | grep -v "^KNOWN" | cut -c1-300 | tail -${4:-8}
+cd /verif && PYVC_REPO=/tmp/mut ./check $1 2>&1 | grep -v "^KNOWN" | cut -c1-300 | tail -${4:-8}
